@@ -252,6 +252,10 @@ func c06swallowed(c *Ctx, r *Result) {
 				r.Except("C06.3", cons+"#"+s.Kind, c.InstrPos(s.Call), "same site as C17.2: "+reason)
 				continue
 			}
+			if reason, ok := c.nameSearchSkip(s); ok {
+				r.Except("C06.3", cons+"#"+s.Kind, c.InstrPos(s.Call), "same site as C17.2: "+reason)
+				continue
+			}
 			r.Viol("C06.3", cons+"#"+s.Kind, c.InstrPos(s.Call), s.Detail)
 		case ErrPropagated, ErrEOFTol:
 			r.Hold("C06.3", cons+"#"+s.Kind, c.InstrPos(s.Call), "")
